@@ -82,6 +82,21 @@ Theorem C04_listener_histories_truthful_in_the_composition : forall sc w,
         (forall a k, up_l id a k (out w) = stored a k w && regm id k w) /\ altl id (out w) = true).
 Proof. exact sys_listener_histories. Qed.
 
+(* steps of the convergence argument, for every world: a received Offer (TTL > 0) of a watched service is recorded
+   whatever was stored before, and every recording listener registered for it has "offered" as its latest notification;
+   a Subscribe for a running matching instance is recorded before it is acknowledged (C06_instance_records_then_answers),
+   a StopOffer removes the record (C05_stop_offer_withdraws_watched_or_not).  NOT proved: the liveness statement itself
+   (that within TTL + period these steps happen), which the co-simulation decides. *)
+Theorem C04_received_offer_is_recorded : forall X e a s w,
+  GP X w -> F5 w -> from_offer_entry e = Ok s -> (e_ttl e =? 0) = false -> is_watching e w = true ->
+  forall k, fkey s k = true -> stored a k (handle_offer e a w) = true.
+Proof. exact offer_recorded. Qed.
+Theorem C04_received_offer_is_reported : forall X e a s w,
+  GP X w -> F5 w -> from_offer_entry e = Ok s -> (e_ttl e =? 0) = false -> is_watching e w = true ->
+  forall id, tainted id (glog (handle_offer e a w)) = false -> regm id s (handle_offer e a w) = true ->
+  up_l id a s (out (handle_offer e a w)) = true.
+Proof. exact offer_reported. Qed.
+
 (* the per-entry dispatch of ServiceDiscoveryProtocol.sd_message_received in the model IS the control flow translated
    from the source text on every run (which component handles which entry type, directly or through call_soon) *)
 Theorem C04_dispatch_is_the_translated_source : forall h a mc w,
@@ -100,3 +115,5 @@ Print Assumptions C04_latency_positive.
 Print Assumptions C04_dispatch_is_the_translated_source.
 Print Assumptions C04_whole_run_invariants_in_the_composition.
 Print Assumptions C04_listener_histories_truthful_in_the_composition.
+Print Assumptions C04_received_offer_is_recorded.
+Print Assumptions C04_received_offer_is_reported.
